@@ -55,6 +55,7 @@ func init() {
 		"vSameBacking": inSameBacking,
 		"vCountTrue":   inCountTrue,
 		"vPad":         inPad,
+		"vFPContracts": func(it *Interp, fr *frame, cc *ssa.CallCommon, a []Value) Value { it.FPContracts = a[0].(*Term).IsTrue(); return nil },
 		"vConcretizeAlloc": func(it *Interp, fr *frame, cc *ssa.CallCommon, a []Value) Value { it.ConcretizeAlloc = a[0].(*Term).IsTrue(); return nil },
 		"vAllocCheck":  func(it *Interp, fr *frame, cc *ssa.CallCommon, a []Value) Value { return nil },
 		"vIdx":         inIdx,
